@@ -159,6 +159,7 @@ class Built:
 EVENTS0 = 6_000_000      # most expensive legitimate call measured: ~6e5 call events (refinement through a warm-up chain)
 EVENTS_PER_NODE = 400     # legitimate tree construction: ~30 call events per designed leaf
 MAX_DESIGNED = 8192
+CPU_LIMIT_S = 90.0        # CPU-time backstop per service call / constructor (slowest legitimate ones: ~2-3 s)
 
 
 def designed_nodes_hint(cfg):
@@ -173,11 +174,11 @@ def build(cfg, entropy_rng, *, faults=True, entropy_override=None, monitor=True)
     under the deterministic step budget (a constructor that never returns is a violation, class 'budget')."""
     if monitor:
         budget = int(EVENTS0 + EVENTS_PER_NODE * min(designed_nodes_hint(cfg), 4 * MAX_DESIGNED))
-        with seams.CallMonitor(budget) as m:
+        with seams.CallMonitor(budget, CPU_LIMIT_S) as m:
             try:
                 b = build(cfg, entropy_rng, faults=faults, entropy_override=entropy_override, monitor=False)
             except SimBudgetExceeded as e:
-                raise Violation("budget", {"where": "constructor", "msg": str(e)}, "ctor")
+                raise Violation("stalled" if str(e).startswith("stalled") else "budget", {"where": "constructor", "msg": str(e)}, "ctor")
         b.ctor_depth = m.max_depth
         return b
     import torchsde
@@ -190,7 +191,7 @@ def build(cfg, entropy_rng, *, faults=True, entropy_override=None, monitor=True)
     w0 = None
     try:
         return _build(cfg, entropy_rng, faults, entropy, t0, t1, size, dtype, tol, front_kind)
-    except (HarnessError, Violation, PassThrough):
+    except (HarnessError, Violation, PassThrough, SimBudgetExceeded):
         raise
     except RecursionError as e:
         raise Violation(f"exception:RecursionError@{_where(e)}", {"where": "constructor"}, "ctor")
@@ -595,14 +596,14 @@ class BMExec:
                     ta_, tb_ = ta, tb
                 if self.monitor_budget is not None:
                     budget = self.auto_budget() if self.monitor_budget == "auto" else self.monitor_budget
-                    with seams.CallMonitor(budget) as mon:
+                    with seams.CallMonitor(budget, CPU_LIMIT_S) as mon:
                         out = b.front(ta_, tb_, return_U=U, return_A=A)
                     self.max_depth = max(self.max_depth, mon.max_depth)
                     self.max_events = max(self.max_events, mon.events)
                 else:
                     out = b.front(ta_, tb_, return_U=U, return_A=A)
             except SimBudgetExceeded as e:
-                raise Violation("budget", {"ta": fx(ta), "tb": fx(tb), "msg": str(e)}, idx)
+                raise Violation("stalled" if str(e).startswith("stalled") else "budget", {"ta": fx(ta), "tb": fx(tb), "msg": str(e)}, idx)
             except (HarnessError, Violation, PassThrough):
                 raise
             except RecursionError as e:
@@ -657,13 +658,13 @@ class BMExec:
         try:
             try:
                 if self.monitor_budget is not None:
-                    with seams.CallMonitor(self.auto_budget()) as mon:
+                    with seams.CallMonitor(self.auto_budget(), CPU_LIMIT_S) as mon:
                         out = b.front(t)
                     self.max_depth = max(self.max_depth, mon.max_depth)
                 else:
                     out = b.front(t)
             except SimBudgetExceeded as e:
-                raise Violation("budget", {"t": fx(t), "msg": str(e)}, idx)
+                raise Violation("stalled" if str(e).startswith("stalled") else "budget", {"t": fx(t), "msg": str(e)}, idx)
             except (HarnessError, Violation, PassThrough):
                 raise
             except Exception as e:  # noqa
